@@ -8,8 +8,9 @@ CONSTANTS
   MaxSteps = 6
   MaxPend = 2
   Kinds = {"do","loop","forin","fn","pcall","co"}
-  Handlers = {"ok","raise","nil","nometa"}
+  Handlers = {"ok","raise","raisetbc","nil","nometa"}
   ViewHist = 0
   ErrKinds = {"str","tbl"}
   XHandlers = {}
   Battery = FALSE
+  EmitAll = TRUE
